@@ -1063,6 +1063,8 @@ func runScenario(w *World, prop string, idx int) {
 			return
 		}
 		RunMembership(w, idx)
+	case "C06":
+		RunRevert(w, idx)
 	case "C13":
 		RunSnapshots(w, idx)
 	case "C19":
